@@ -527,6 +527,15 @@ func c18Merge(p *core.Program, r *core.Report) {
 				writes++
 				writeArg = strings.TrimPrefix(norm(v.Args[1]), "&")
 			}
+			// the overlay loop handed to a helper: the re-read map is passed to a function of the
+			// package that stores into that parameter
+			if baseDef != "" {
+				for i, a := range v.Args {
+					if norm(a) == baseDef && helperStoresInto(p, fi.Pkg.TypesInfo, v, i, 0) {
+						overlay = true
+					}
+				}
+			}
 		}
 		return true
 	})
@@ -600,4 +609,65 @@ func c18Trim(p *core.Program, r *core.Report) {
 			fileProbs(r, "C18.trim", core.FuncName(fi.Obj), p.Pos(fi.Decl.Pos()), probs, "map values leave through strings.TrimSpace")
 		}
 	}
+}
+
+// helperStoresInto: the callee of call (a function or method of the module with a body) assigns to an
+// element of its i-th parameter, itself or through one more helper.
+func helperStoresInto(p *core.Program, info *types.Info, call *ast.CallExpr, i, depth int) bool {
+	if depth > 2 {
+		return false
+	}
+	var id *ast.Ident
+	switch f := ast.Unparen(call.Fun).(type) {
+	case *ast.Ident:
+		id = f
+	case *ast.SelectorExpr:
+		id = f.Sel
+	}
+	if id == nil {
+		return false
+	}
+	fn, _ := info.Uses[id].(*types.Func)
+	if fn == nil {
+		return false
+	}
+	hf := p.FuncOf(fn)
+	if hf == nil || hf.Decl.Body == nil {
+		return false
+	}
+	var param types.Object
+	k := 0
+	for _, f := range hf.Decl.Type.Params.List {
+		for _, n := range f.Names {
+			if k == i {
+				param = hf.Pkg.TypesInfo.Defs[n]
+			}
+			k++
+		}
+	}
+	if param == nil {
+		return false
+	}
+	hinfo := hf.Pkg.TypesInfo
+	found := false
+	ast.Inspect(hf.Decl.Body, func(n ast.Node) bool {
+		switch v := n.(type) {
+		case *ast.AssignStmt:
+			for _, l := range v.Lhs {
+				if ix, ok := ast.Unparen(l).(*ast.IndexExpr); ok {
+					if x, ok := ast.Unparen(ix.X).(*ast.Ident); ok && hinfo.ObjectOf(x) == param {
+						found = true
+					}
+				}
+			}
+		case *ast.CallExpr:
+			for j, a := range v.Args {
+				if x, ok := ast.Unparen(a).(*ast.Ident); ok && hinfo.ObjectOf(x) == param && helperStoresInto(p, hinfo, v, j, depth+1) {
+					found = true
+				}
+			}
+		}
+		return true
+	})
+	return found
 }
